@@ -48,8 +48,10 @@ def r1(chk):
             else:
                 branch = "?"
                 ok = False
-            chk.expect("R1", f"{getter}/{branch}", ok, ATTR, c["line"], "parser called with unexpected arguments for this spelling",
-                       expected="(instr, <group content>, own, bark)", found=args)
+            vocab = {"&instr", "instr", "tokens", "true", "false", "bark", "TokenStream::new()", "!bark"}
+            recognised = all(a in vocab or a.endswith(".content()") for a in args)
+            chk.shape("R1", f"{getter}/{branch}", ok, recognised and not ok, ATTR, c["line"], "parser called with unexpected arguments for this spelling",
+                      expected="(instr, <group content>, own, bark)", found=args)
     # OptionalParenthesizedTokenStream::content: None -> empty stream, Some(x) -> x
     fc = repo.fn(ATTR, "content", impl="OptionalParenthesizedTokenStream")
     ev = Evaluator(repo, IMPL_FILES)
@@ -62,8 +64,8 @@ def r1(chk):
     fp = repo.fn(ATTR, "parse", impl="OptionalParenthesizedTokenStream")
     peeks = [render(m["args"][0]) for m in method_calls(fp.body, "peek")]
     macs = [n["last"] for n in walk(fp.body) if n["k"] == "Macro"]
-    chk.expect("R1", "OptionalParenthesizedTokenStream::parse", peeks == ["Paren"] and macs == ["parenthesized"], ATTR, fp.line,
-               "argument group must be exactly one optional parenthesised group", found={"peek": peeks, "macros": macs})
+    chk.shape("R1", "OptionalParenthesizedTokenStream::parse", peeks == ["Paren"] and macs == ["parenthesized"], bool(set(peeks) & {"Brace", "Bracket"}) or bool(set(macs) & {"braced", "bracketed"}), ATTR, fp.line,
+              "argument group must be exactly one optional parenthesised group", found={"peek": peeks, "macros": macs})
 
 
 def r2(chk):
